@@ -523,9 +523,9 @@ CONTROLS = (("ConsensusCtlMC_ctl_F1.cfg", "SubscriberComplete", "wrapper.Subscri
             ("ConsensusCtlMC_ctl_dbgGE.cfg", "Recent", "debugger: evicts at >= budget"),
             ("ConsensusCtlMC_ctl_dbgDropNewest.cfg", "Recent", "debugger: evicts the newest instance"))
 QUICK_MC = ["ConsensusCtlMC_w_swap.cfg", "ConsensusCtlMC_w_ascoded.cfg", "ConsensusCtlMC_w_set.cfg", "ConsensusCtlMC_w_template.cfg",
-            "ConsensusCtlMC_io_solo.cfg", "ConsensusCtlMC_io_duo.cfg", "ConsensusCtlMC_io_two.cfg", "ConsensusCtlMC_io_ascoded.cfg",
+            "ConsensusCtlMC_io_solo.cfg", "ConsensusCtlMC_io_duo.cfg", "ConsensusCtlMC_io_ascoded.cfg",
             "ConsensusCtlMC_dbg.cfg", "ConsensusCtlMC_proto.cfg", "ConsensusCtlMC_w_live.cfg", "ConsensusCtlMC_io_live.cfg"]
-THOROUGH_MC = QUICK_MC + ["ConsensusCtlMC_w_swap_thorough.cfg", "ConsensusCtlMC_w_ascoded_thorough.cfg", "ConsensusCtlMC_w_set_thorough.cfg",
+THOROUGH_MC = QUICK_MC + ["ConsensusCtlMC_io_two.cfg", "ConsensusCtlMC_w_swap_thorough.cfg", "ConsensusCtlMC_w_ascoded_thorough.cfg", "ConsensusCtlMC_w_set_thorough.cfg",
                           "ConsensusCtlMC_io_solo_thorough.cfg", "ConsensusCtlMC_io_duo_thorough.cfg", "ConsensusCtlMC_io_gates_thorough.cfg",
                           "ConsensusCtlMC_io_ascoded_thorough.cfg", "ConsensusCtlMC_dbg_thorough.cfg", "ConsensusCtlMC_w_live_thorough.cfg"]
 GENS = (("ConsensusCtlGen_ctl.cfg", "ctl", True, []), ("ConsensusCtlGen_ctl_short.cfg", "ctl", True, []),
@@ -539,7 +539,7 @@ def design_check(o, tier, seed):
     from concurrent.futures import ThreadPoolExecutor
     thorough = tier == "thorough"
     mains = THOROUGH_MC if thorough else QUICK_MC
-    n = 1200 if thorough else 150
+    n = 1500 if thorough else 250
     jobs = [("ConsensusCtlGen", g[0], dict(simulate="num=%d" % n, depth=90, seed=seed + 1000 * k, workers=1)) for k, g in enumerate(GENS)]
     controls = CONTROLS
     if os.environ.get("VERIF_CONSENSUSCTL_NOMC"):      # mutation experiments: the design check does not depend on the tree
@@ -602,10 +602,10 @@ def stage(o, tier, seed):
     confirm_deviations(o)
     r = vlib.rng(seed, "consensusctl-gen")
     r.shuffle(hists)
-    hists = hists[:4000 if thorough else 260]
+    hists = hists[:5000 if thorough else 520]
     gen = [from_hist(r, g[1], g[2], g[3], h) for g, h in hists]
-    rnd = random_schedules(seed, 700 if thorough else 60)
-    dirs = directed_io_schedules(seed, 400 if thorough else 40)
+    rnd = random_schedules(seed, 900 if thorough else 110)
+    dirs = directed_io_schedules(seed, 600 if thorough else 80)
     o.extra["consensusctl_histories_by_tlc"] = len(gen)
     tr = []
     for tag, scheds in (("ccgen", gen), ("ccrnd", rnd), ("ccdir", dirs)):
